@@ -36,7 +36,8 @@ def check_frame(out, rng, fr, sess, pending):
   px, py, tx, ty = en.series(fr, True, col=col)
   cond = en.conditioned(px, py)
   kl, ks, kdf = en.kerman(px, py, tx, ty) if len(px) >= 3 and np.std(px) > 0 else (None, None, None)
-  nonmono = bool(ks is not None and any(ks[i + 1] < ks[i] for i in range(len(ks) - 1)))
+  # (not strictly increasing: with equal scales the pointwise bound coincides with the estimate and rounding decides)
+  nonmono = bool(ks is not None and any(ks[i + 1] <= ks[i] * (1 + 1e-12) for i in range(len(ks) - 1)))
   exact_fit = False
   if len(px) >= 3 and np.std(px) > 0:
     # pre-period fit exact to ten digits: the posterior is a point mass and bounds differ from estimates by rounding only
